@@ -3,6 +3,7 @@ package addrsim
 import (
 	"crypto/sha256"
 	"fmt"
+	"strings"
 	"time"
 
 	"github.com/btcsuite/btcd/btcec/v2"
@@ -46,7 +47,8 @@ func (r *run) crashed(res txResult, ctx string) bool {
 	if res.panicked == nil {
 		return false
 	}
-	r.fail("panic:"+r.apiName()+":"+ctx, "%s panicked (%s): %v", r.apiName(), ctx, res.panicked)
+	api := strings.NewReplacer("External", "", "Internal", "").Replace(r.apiName())
+	r.fail("panic:"+api+":"+ctx, "%s panicked (%s): %v", r.apiName(), ctx, res.panicked)
 	r.stop = true
 	return true
 }
@@ -234,9 +236,9 @@ func (r *run) pickAcct(a0, a1 int64) (int, *scopeM, *acctM) {
 
 func brName(b uint32) string {
 	if b == 1 {
-		return "internal"
+		return "Internal"
 	}
-	return "external"
+	return "External"
 }
 
 // ---------------------------------------------------------------- next / extend
@@ -930,6 +932,9 @@ func (r *run) opNewAccount(op core.Op) {
 		sc.LastAcct = num
 		r.m.NameCtr++
 		r.env.Count("probe.new-account")
+		if _, cz := r.orc.LeadingZeroOnPath(sc.kscope()); cz {
+			r.env.Count("probe.leading-zero-coin-key-new-account")
+		}
 	}
 	r.after(res)
 }
